@@ -1255,8 +1255,9 @@ tp_threads_create(tp_p tp, const int skip_first) {
 		tpt = &tp->threads[i];
 		if (NULL == tpt->tp)
 			continue;
-		if (TP_THREAD_STATE_STOP != tpt->state)
-			continue; /* Already started / attached. */
+		if (TP_THREAD_STATE_STOP != tpt->state ||
+		    0 != tpt_pt_id_is_set(tpt))
+			continue; /* Already started / attached / not joined yet. */
 		tpt->state = TP_THREAD_STATE_STARTING;
 		if (0 == pthread_create_eagain(&tpt->pt_id, NULL,
 		    tp_thread_proc, tpt)) {
